@@ -408,7 +408,7 @@ impl Property for C05 {
     }
     fn run_tape(&self, tape: &[u8], ctx: &mut Ctx) -> Result<(), Failure> {
         let mut t = Tape::new(tape);
-        let p = gen_packet(&mut t);
+        let p = gen_packet_big(&mut t);
         if ctx.counting {
             let r = refdec::decode(p.start, &p.bytes, true);
             classify("", &p, &r, ctx);
